@@ -65,7 +65,10 @@ def fuzz_case(case):
             if not isinstance(r.subject, str): bad.append("subject not str")
             if not (isinstance(r.labels, list) and all(isinstance(l, str) for l in r.labels)): bad.append("labels not list[str]")
             if not (isinstance(r.score, float) and math.isfinite(r.score)) and not isinstance(r.score, int): bad.append("score not finite %r" % (r.score,))
-            if isinstance(res, Time): wf_time(res, "T", bad)
+            if isinstance(res, Time):
+                wf_time(res, "T", bad)
+                # C01.candidate_year_bounded on the real stream: a plain time carries no year beyond max(2999, reference year + 401)
+                if res.year is not None and ts is not None and res.year > max(2999, ts[0] + 401): bad.append("year %r beyond the bound of any production" % (res.year,))
             elif isinstance(res, Interval):
                 for nm, x in (("from", res.t_from), ("to", res.t_to)):
                     if x is not None: wf_time(x, "I." + nm, bad)
@@ -204,18 +207,21 @@ def c09_case(case):
         return {"skip": "base-exc"}
     if base.resolution is None:
         return {"skip": "base-none"}
+    # the text handed to the parser carries the expression as written (not its stand-alone normal form): normalisation is part
+    # of what must not depend on the surrounding words; `txt` is the normalised text positions refer to
     txt = " ".join(pre + [pe] + suf)
+    txt_raw = " ".join(pre + [e] + suf)
     off = len(" ".join(pre)) + (1 if pre else 0)
     # inertness as the property defines it: no time pattern matches anything inside the word itself
     for w in set(pre + suf):
         if C._match_regex(w, _regex):
             return {"skip": "word-not-inert"}
     try:
-        r = cp(txt, ts=t0, timeout=0, latent_time=latent)
+        r = cp(txt_raw, ts=t0, timeout=0, latent_time=latent)
     except Exception as x:
-        return {"fail": "exception %s" % type(x).__name__, "text": txt}
+        return {"fail": "exception %s" % type(x).__name__, "text": txt_raw}
     if r.resolution != base.resolution:
-        return {"fail": "value: %s vs alone %s" % (r.resolution, base.resolution), "text": txt}
+        return {"fail": "value: %s vs alone %s" % (r.resolution, base.resolution), "text": txt_raw}
     # the span is the stretch of text the reported derivation consumed: replay the production with own position bookkeeping
     try:
         bn = base if not latent else cp(e, ts=t0, timeout=0, latent_time=False)
@@ -408,7 +414,10 @@ def sweep_c10(rng, tier):
     # incl. hashtags that are prefixes / extensions of one another and repeated ones
     tags = ["#fun", "#work-1", "#a", "#_x", "#Home_2", "#b-c", "#follow-up", "#to-do", "#urgent", "#family", "#work", "#a1", "#ab", "#fun2", "#b", "#urgent-2", "#v", "#v2", "#follow"]
     exprs = ["tomorrow", "friday 8pm-9pm", "12.12.2020", "next monday", "8pm", "3 days", "heute 14 uhr", "5th of may", "May 5th 2:30 in the afternoon", "monday", "tomorrow 5pm",
-             "12-12-2020", "12-12-2020 - 14-12-2020", "8pm-9pm"]
+             "12-12-2020", "12-12-2020 - 14-12-2020", "8pm-9pm",
+             # words with more than one tokenisation (one pattern matches the whole word, others its pieces): which sequence ranks
+             # first and which one the result is built from need not be the same
+             "May/8", "Dec/24", "on May/8", "Jan/5 8pm", "24.12.", "2020-12-24", "17:30h", "8:30pm"]
     seps = [" ", "  ", ", ", "; ", "\t", " (", ") ", " ", " ", "  "]
     ts = (2018, 3, 7, 12, 43, 0)
     cases = []
@@ -1156,6 +1165,17 @@ def sweep_c14(rng, tier):
     for _ in range(8000 if tier == "thorough" else 2500):
         t = " ".join(rng.choice(frags) for _ in range(rng.randint(2, 4)))
         cases.append((t, rng.choice(refs), {"latent": False, "depth": rng.choice([10, 10, 3]), "rml": 1.0, "scorer": "shipped", "seed": 0}))
+    # a long chain of matches that cannot be reduced to a value (connecting words only) next to a shorter real expression: under
+    # relative_match_len=1 only the longest chains are tried, the stream is empty - "an empty resolution only when the stream is
+    # empty" is decided on exactly these texts (and the converse: no resolution may be invented for them)
+    glue = ["quarter to", "at", "on", "this", "from", "between", "to", "until", "of", "the", "in the", "um", "am", "von", "bis", "half", "next", "nächsten", "and", "-", "viertel vor", "after", "before"]
+    shorts = ["5pm", "tomorrow", "may 5th", "17:30", "friday", "heute", "8 uhr", "12.12.2020"]
+    words = ["lunch", "xyzzy", "call", "then", "qwrk"]
+    for _ in range(600 if tier == "thorough" else 160):
+        chain = " ".join(rng.choice(glue) for _ in range(rng.randint(3, 5)))
+        parts = [chain, rng.choice(words), rng.choice(shorts)]
+        if rng.random() < 0.5: parts.reverse()
+        cases.append((" ".join(parts), rng.choice(refs), {"latent": rng.random() < 0.5, "depth": rng.choice([10, 0]), "rml": rng.choice([1.0, 1.0, 0.8]), "scorer": rng.choice(["shipped", "const"]), "seed": 0}))
     ctx = mp.get_context("fork")
     with ctx.Pool(min(16, os.cpu_count() or 1)) as pool:
         recs = pool.map(c14_case, cases, chunksize=4)
@@ -1186,6 +1206,7 @@ def sweep_c14(rng, tier):
                 fails.append({"text": t, "ts": list(ts), "opts": {"scorer": "shared"}, "expected": "no exception", "observed": type(e).__name__, "what": "C14: exception"})
     for c, r in zip(cases, recs):
         dist["scorer=" + c[2]["scorer"]] += 1; dist["candidates"] += r["n"]
+        if r["n"] == 0: dist["empty stream"] += 1
         if r["n"] > 1: seen.add((c[0], json.dumps(c[2], sort_keys=True)))
         for p in r["probs"]:
             fails.append({"text": c[0], "ts": list(c[1]), "opts": c[2], "expected": "single result = a maximal-score candidate of the stream; finite scores; re-emission only with a strictly higher score", "observed": p, "what": "C14: " + p.split(" ")[0] + " " + p.split(" ")[1]})
@@ -1622,8 +1643,11 @@ def sweep_c17(rng, tier):
     for text, gold in golds:
         entries.append(TimeParseEntry(text=text, ts=ts, gold=gold))
         # gold written with nb_str and loaded back must denote the same value
-        back = parse_nb_string(gold.nb_str())
         dist["gold round trips"] += 1
+        try:
+            back = parse_nb_string(gold.nb_str())
+        except Exception as e:
+            fails.append({"text": gold.nb_str(), "ts": None, "opts": {}, "expected": "parse_nb_string(nb_str(x)) == x", "observed": type(e).__name__, "what": "C17 gold round trip"}); continue
         if back != gold:
             fails.append({"text": gold.nb_str(), "ts": None, "opts": {}, "expected": "parse_nb_string(nb_str(x)) == x", "observed": back.nb_str(), "what": "C17 gold round trip"})
     entries += extra
@@ -1797,10 +1821,18 @@ sys.stdout.write(base64.b64encode(pickle.dumps(vals, protocol=4)).decode())
     if Time() == Interval() or Duration(1, DurationUnit.DAYS) == Time():
         fails.append({"text": "Time() == Interval()", "ts": None, "opts": {}, "expected": "False", "observed": "True", "what": "C18 equality"})
     try:
-        for e in load_timeparse_corpus(os.path.join(REPO, "datasets", "timeparse_corpus.json")):
+        # the gold strings of the bundled dataset, one by one (the loader parses them all at once: one string that does not parse
+        # back would abort it - that string is the failing input, not a reason to stop looking)
+        with open(os.path.join(REPO, "datasets", "timeparse_corpus.json"), encoding="utf-8") as fd:
+            golds_ = sorted({e["gold_parse"] for e in json.load(fd)})
+        for gs in golds_:
             dist["dataset gold strings"] += 1
-            if parse_nb_string(e.gold.nb_str()) != e.gold:
-                fails.append({"text": e.gold.nb_str(), "ts": None, "opts": {}, "expected": "round trip", "observed": "differs", "what": "C18 round trip"})
+            try:
+                v = parse_nb_string(gs)
+                if v.nb_str() != gs or parse_nb_string(v.nb_str()) != v:
+                    fails.append({"text": gs, "ts": None, "opts": {}, "expected": "round trip", "observed": v.nb_str(), "what": "C18 round trip"})
+            except Exception as e:
+                fails.append({"text": gs, "ts": None, "opts": {}, "expected": "text form of the bundled dataset parses back", "observed": "%s: %s" % (type(e).__name__, str(e)[:60]), "what": "C18 round trip"})
     except FileNotFoundError:
         pass
     n = sum(dist.values())
